@@ -400,7 +400,7 @@ class OffsetConversion(Harness):
     stubs = (SHOW_STUB, (r'^eval_expr$', stub_eval_expr_env, 'eval_expr -> arbitrary DateTime value'),
              (r'^DateReply::new$', stub_date_reply, 'DateReply::new -> record of the re-zoned DateTime'))
     expect_classes = ['Result::Ok', 'Result::Err']
-    bounds = ['offset text shape: sign, two digits, colon, two digits (the only shape parse_offset accepts)']
+    bounds = ['offset text shape: sign, hour digits (2, or 1 / 3 / 16 / 20 which parse_offset must decline), colon, two digits']
     _concrete = None
 
     def build(self, ex, I):
@@ -408,7 +408,8 @@ class OffsetConversion(Harness):
         sign = ex.choose(2, 'sign')
         if self._concrete is not None:
             sign = 0 if self._concrete['sign'] > 0 else 1
-        hh = [I.int('h0'), I.int('h1')]
+        nh = 2 if self._concrete is not None else [2, 1, 3, 16, 20][ex.choose(5, 'hour digits')]
+        hh = [I.int('h%d' % i) for i in range(nh)]
         mm = [I.int('m0'), I.int('m1')]
         if self._concrete is None:
             for c in hh + mm:
@@ -428,7 +429,7 @@ class OffsetConversion(Harness):
         dt = variant(ex, 'GenericDateTime', kind, [mk_datetime(d, zone)])
         ex.env['eval_expr'] = lambda ex_, a: ok(variant(ex_, 'Value', 'DateTime', [dup(dt)]))
         off = (1 if sign == 0 else -1) * 1
-        return [it], {'sign': 1 if sign == 0 else -1, 'hh': hh, 'mm': mm, 'd': d}
+        return [it], {'sign': 1 if sign == 0 else -1, 'hh': hh, 'mm': mm, 'd': d, 'nh': nh}
 
     def entry(self, ex, args, ctx):
         it = args[0]
@@ -454,9 +455,12 @@ class OffsetConversion(Harness):
 
     def post(self, ex, ctx, outcome):
         hh, mm, sign, d = ctx['hh'], ctx['mm'], ctx['sign'], ctx['d']
-        secs = sign * (((hh[0] - 48) * 10 + (hh[1] - 48)) * 3600 + ((mm[0] - 48) * 10 + (mm[1] - 48)) * 60)
         t = deref_all(outcome[1])
         o = deref_all(t.fields[0])
+        if ctx['nh'] != 2:
+            # only hh:mm is an offset; anything else is left to the expression parser
+            return [('an hour field of %d digits is not taken as an offset' % ctx['nh'], o.variant == 0)]
+        secs = sign * (((hh[0] - 48) * 10 + (hh[1] - 48)) * 3600 + ((mm[0] - 48) * 10 + (mm[1] - 48)) * 60)
         obs = [('a well-formed offset is recognised', o.variant == 1)]
         if o.variant == 0:
             return obs
@@ -482,7 +486,8 @@ class OffsetConversion(Harness):
         return c
 
     def _text(self, inputs):
-        hh = chr(int(inputs['h0'])) + chr(int(inputs['h1']))
+        nh = len([k for k in inputs if k.startswith('h') and k[1:].isdigit()])
+        hh = ''.join(chr(int(inputs['h%d' % i])) for i in range(nh))
         mm = chr(int(inputs['m0'])) + chr(int(inputs['m1']))
         return '%s%s:%s' % ('+' if int(inputs['sign']) > 0 else '-', hh, mm), int(inputs['sign']) * (int(hh) * 3600 + int(mm) * 60)
 
@@ -495,6 +500,10 @@ class OffsetConversion(Harness):
         q = obs[0]
         if q.get('outcome') == 'panic' or q.get('render_panic'):
             return True, '`-> %s` panics: %s' % (txt, q.get('panic') or q.get('render_panic'))
+        if len(txt.split(':')[0]) != 3:
+            # not hh:mm: must not be answered as a zone conversion (an error, or whatever the expression means)
+            j = q.get('json') or {}
+            return (q.get('outcome') == 'ok' and j.get('type') == 'date'), '`-> %s` gave %s' % (txt, q.get('display'))
         if abs(secs) >= 86400:
             return (q.get('outcome') != 'err'), '`-> %s` gave %s' % (txt, q.get('display'))
         j = q.get('json') or {}
